@@ -19,6 +19,7 @@ import OdeVerif.Model.Cli
 import OdeVerif.Model.FromFunction
 import OdeVerif.Model.Singularity
 import OdeVerif.Model.Poly
+import OdeVerif.Model.Pipeline
 
 open Lean
 
@@ -551,6 +552,41 @@ def opFromOde (j : Json) : Except String Json := do
   pure (Json.mkObj [("local_factors", jRats r.1), ("inhom", Json.str (stringOfRat r.2.1)), ("nonlin", Json.str (stringOfRat r.2.2)),
                     ("reconstituted", Json.str (stringOfRat (Shapes.reconstitute r.1 localX r.2.1 r.2.2)))])
 
+
+/-! ### whole-pipeline model on the Laurent-polynomial fragment -/
+
+def jBools (l : List Bool) : Json := Json.arr (l.map Json.bool).toArray
+def jNats (l : List Nat) : Json := Json.arr (l.map (fun (k : Nat) => Json.num (JsonNumber.fromNat k))).toArray
+
+def opPipeline (j : Json) : Except String Json := do
+  let n ← getNat j "n"
+  let time ← getNat j "time"
+  let pts ← getRats j "point"
+  let ents ← getArr j "entries"
+  if h : time < n then
+    let entries ← ents.toList.mapM (fun e => do
+      let ds ← e.getObjValAs? (List Nat) "derivs"
+      let ds' ← ds.mapM (fun i => if h : i < n then pure (⟨i, h⟩ : Fin n) else .error "symbol index out of range")
+      let rhs ← parsePolyExpr n (← e.getObjVal? "expr")
+      pure ({ derivs := ds', rhs := rhs } : Pipeline.Entry n))
+    let sys : Pipeline.Sys n := { time := ⟨time, h⟩, entries := entries }
+    let r := Pipeline.analyse sys
+    let pt : Fin n → Rat := fun i => pts.getD i.val 0
+    let ev := Pipeline.evalPoly pt
+    pure (Json.mkObj [
+      ("xs", jNats (r.xs.map (·.val))),
+      ("verdict0", jBools r.verdict0), ("verdict1", jBools r.verdict1),
+      ("verdict2", match r.verdict2 with | some v => jBools v | none => Json.null),
+      ("analytic", jNats r.analytic), ("numeric", jNats r.numeric),
+      ("A", Json.arr (r.rows.map (fun row => jRats (row.A.map ev))).toArray),
+      ("b", jRats (r.rows.map (fun row => ev row.b))),
+      ("c", jRats (r.rows.map (fun row => ev row.c))),
+      ("Anz", Json.arr (r.rows.map (fun row => jBools (row.A.map (fun p => !p.isEmpty)))).toArray),
+      ("bnz", jBools (r.rows.map (fun row => !row.b.isEmpty))),
+      ("cnz", jBools (r.rows.map (fun row => !row.c.isEmpty))),
+      ("numeric_rhs", Json.arr (r.numericRhs.map (fun ir => Json.arr #[Json.num (JsonNumber.fromNat ir.1), Json.str (stringOfRat (ev ir.2))])).toArray)])
+  else .error "time symbol index out of range"
+
 def dispatch (op : String) (j : Json) : Json :=
   match op with
   | "ping" => Json.mkObj [("pong", j)]
@@ -577,6 +613,7 @@ def dispatch (op : String) (j : Json) : Json :=
   | "from-function" => run (opFromFunction j)
   | "singularities" => run (opSingularities j)
   | "poly-verdict" => run (opPolyVerdict j)
+  | "pipeline" => run (opPipeline j)
   | _ => jerr ("unknown-op: " ++ op)
 
 end OdeVerif.Driver
